@@ -26,7 +26,7 @@ def unhexBytes (s : String) : Option (List UInt8) :=
 
 def hexDigit (n : Nat) : Char := if n < 10 then Char.ofNat (48 + n) else Char.ofNat (87 + n)
 def hexBytes (bs : List UInt8) : String :=
-  "x" ++ String.mk (bs.flatMap fun b => [hexDigit (b.toNat / 16), hexDigit (b.toNat % 16)])
+  "x" ++ String.ofList (bs.flatMap fun b => [hexDigit (b.toNat / 16), hexDigit (b.toNat % 16)])
 
 def parseInt (s : String) : Option Int := s.toInt?
 
